@@ -49,6 +49,9 @@ def octet_helpers(modname):
         f = getattr(mod, 'oct2int', None)
         if f is not None and all(f(x) == x for x in (0, 1, 127, 128, 255)):
             ok.add('oct2int')
+        f = getattr(mod, 'str2octs', None)
+        if f is not None and f('\x00') == b'\x00' and f('a\xff') == b'a\xff':
+            ok.add('str2octs')
         f = getattr(mod, 'ints2octs', None)
         if f is not None and f((1, 2, 255)) == bytes((1, 2, 255)) and f(()) == b'':
             ok.add('ints2octs')
@@ -57,7 +60,8 @@ def octet_helpers(modname):
     return ok
 
 
-LEAN_TY = {'int': 'Int', 'bool': 'Bool', 'tup': 'Py.Tup', 'tups': 'List Py.Tup', 'fun:tup->tup': '(Py.Tup → Py.M Py.Tup)', 'unit': 'Unit', 'fun:int->unit': '(Int → Py.M Unit)'}
+LEAN_TY = {'int': 'Int', 'bool': 'Bool', 'tup': 'Py.Tup', 'tups': 'List Py.Tup', 'fun:tup->tup': '(Py.Tup → Py.M Py.Tup)', 'unit': 'Unit', 'fun:int->unit': '(Int → Py.M Unit)',
+           'pairs': 'List (Py.Tup × Py.Tup)', 'pair': '(Py.Tup × Py.Tup)'}
 
 
 def find_function(tree, path):
@@ -274,6 +278,35 @@ def tr_expr(cx, env, e):
         if pa or pb or ta != tb:
             raise Unsupported('conditional expression %s' % unparse(e))
         return '(if %s then %s else %s)' % (as_bool(c, tc), a, b), ta, pc
+    if isinstance(e, ast.ListComp):
+        # [<expr in x> for x in xs]: a map over a list of octet strings / of pairs; the element expression may not raise
+        if len(e.generators) != 1 or e.generators[0].ifs or e.generators[0].is_async or not isinstance(e.generators[0].target, ast.Name):
+            raise Unsupported('comprehension %s' % unparse(e))
+        it, tit, pit = tr_expr(cx, env, e.generators[0].iter)
+        if tit not in ('tups', 'pairs'):
+            raise Unsupported('comprehension over %s' % tit)
+        x = e.generators[0].target.id
+        env2 = dict(env)
+        env2[x] = 'tup' if tit == 'tups' else 'pair'
+        if isinstance(e.elt, ast.Tuple) and len(e.elt.elts) == 2:
+            parts = [tr_expr(cx, env2, q) for q in e.elt.elts]
+            if all(p_[1] == 'tup' for p_ in parts):
+                # an element part that may raise (ljust with a bad fill) makes the whole map monadic
+                pre_in = sum((p_[2] for p_ in parts), [])
+                if pre_in:
+                    v = cx.tmp()
+                    body = '; '.join(pre_in) + '; pure (%s, %s)' % (parts[0][0], parts[1][0])
+                    return v, 'pairs', pit + ['let %s ← (%s).mapM (fun %s => (do %s : Py.M (Py.Tup × Py.Tup)))' % (v, it, x, body)]
+                return '((%s).map fun %s => (%s, %s))' % (it, x, parts[0][0], parts[1][0]), 'pairs', pit
+        el, tel, pel = tr_expr(cx, env2, e.elt)
+        if pel:
+            raise Unsupported('comprehension element %s' % unparse(e.elt))
+        if tel == 'tup':
+            return '((%s).map fun %s => %s)' % (it, x, el), 'tups', pit
+        raise Unsupported('comprehension %s' % unparse(e))
+    if isinstance(e, ast.Subscript) and isinstance(e.value, ast.Name) and env.get(e.value.id) == 'pair' \
+            and isinstance(e.slice, ast.Constant) and e.slice.value in (0, 1):
+        return '%s.%d' % (e.value.id, e.slice.value + 1), 'tup', []
     if isinstance(e, ast.Subscript):
         t, tt, pt = tr_expr(cx, env, e.value)
         if tt != 'tup':
@@ -309,9 +342,33 @@ def tr_expr(cx, env, e):
         f = e.func
         if isinstance(f, ast.Name) and f.id == 'len' and len(e.args) == 1:
             a, ta, pa = tr_expr(cx, env, e.args[0])
+            if ta in ('tups', 'pairs'):
+                return '((%s).length : Int)' % a, 'int', pa
             if ta != 'tup':
                 raise Unsupported('len of %s' % ta)
             return '(Py.len %s)' % a, 'int', pa
+        if (isinstance(f, ast.Name) and f.id == 'max' and len(e.args) == 1 and isinstance(e.args[0], ast.Call)
+                and isinstance(e.args[0].func, ast.Name) and e.args[0].func.id == 'map' and len(e.args[0].args) == 2
+                and isinstance(e.args[0].args[0], ast.Name) and e.args[0].args[0].id == 'len' and 'max' not in env and 'map' not in env):
+            a, ta, pa = tr_expr(cx, env, e.args[0].args[1])          # max(map(len, xs)); ValueError on an empty list
+            if ta == 'tups':
+                v = cx.tmp()
+                return v, 'int', pa + ['let %s ← Py.maxLen %s' % (v, a)]
+        if (isinstance(f, ast.Name) and f.id == 'str2octs' and 'str2octs' in cx.octets and len(e.args) == 1
+                and isinstance(e.args[0], ast.Constant) and isinstance(e.args[0].value, str) and f.id not in env):
+            return '([%s] : Py.Tup)' % ', '.join(lit(b) for b in e.args[0].value.encode('iso-8859-1')), 'tup', []
+        if isinstance(f, ast.Attribute) and f.attr == 'ljust' and len(e.args) == 2 and not e.keywords:
+            a, ta, pa = tr_expr(cx, env, f.value)
+            n, tn, pn = tr_expr(cx, env, e.args[0])
+            z, tz, pz = tr_expr(cx, env, e.args[1])
+            if (ta, tn, tz) == ('tup', 'int', 'tup'):
+                v = cx.tmp()
+                return v, 'tup', pa + pn + pz + ['let %s ← Py.ljust %s %s %s' % (v, a, n, z)]
+        if isinstance(f, ast.Attribute) and f.attr == 'join' and len(e.args) == 1 and not e.keywords:
+            a, ta, pa = tr_expr(cx, env, f.value)
+            b, tb, pb = tr_expr(cx, env, e.args[0])
+            if ta == 'tup' and a == '([] : Py.Tup)' and tb == 'tups':
+                return '(%s).flatten' % b, 'tup', pa + pb          # null.join(chunks)
         if isinstance(f, ast.Name) and f.id == 'max' and len(e.args) == 2:
             a, ta, pa = tr_expr(cx, env, e.args[0])
             b, tb, pb = tr_expr(cx, env, e.args[1])
@@ -527,6 +584,12 @@ def tr_block(cx, env, stmts, ret_ty, tail):
         return cont(env)        # docstring
     if isinstance(s, ast.Pass):
         return cont(env)
+    if (isinstance(s, ast.Expr) and isinstance(s.value, ast.Call) and isinstance(s.value.func, ast.Attribute)
+            and s.value.func.attr == 'sort' and isinstance(s.value.func.value, ast.Name) and env.get(s.value.func.value.id) == 'pairs'
+            and not s.value.args and len(s.value.keywords) == 1 and s.value.keywords[0].arg == 'key'
+            and unparse(s.value.keywords[0].value).replace(' ', '') == 'lambdax:x[0]'):
+        nm = s.value.func.value.id      # in-place stable sort of a list of pairs by the first component
+        return ['let %s : %s := Py.sortByFst %s' % (nm, LEAN_TY['pairs'], nm)] + cont(env)
     if isinstance(s, ast.Continue):
         if not cx.loop_rec:
             raise Unsupported('continue outside a translated for loop')
